@@ -14,6 +14,9 @@
     pac/pac.go      FindProxyForURL(u, "") : the script sees `u.String()` and `u.Hostname()`
     pac/pool.go     the resolver pool — the only state a proxy instance keeps between two routing
                     decisions; the decision does not read it
+    ruleset/regexp.go  `--direct-domains` is a rule list of Go regular expressions (includes minus
+                    excludes); its verdict is C17's model of `ruleset.RegexpMatcher` (`directMatch`:
+                    the RE2-fragment parser with Go's flag scoping, every rule evaluated on its own)
   PAC scripts are decision lists over the URL and the host (`UrlScript`; the host table `PacScript`
   is the special case whose conditions are all `host == k`); a proxy instance is folded over a list
   of requests (`runSeq`).  `shExpMatch` is C14's model of `ascii_pac_utils.js`.
@@ -21,12 +24,13 @@
 -/
 import FwdVerif.Model.Req
 import FwdVerif.Model.C14
+import FwdVerif.Model.C17
 
 namespace FwdVerif
 namespace C05
 
 open Ascii
-open Req (bs trimSpace hostname urlPort netSplitHostPort netJoinHostPort canonicalAddr DomRule domMatch
+open Req (bs trimSpace hostname urlPort netSplitHostPort netJoinHostPort canonicalAddr
   isLoopbackLiteral Upstream basicAuthValue)
 
 /-! ### PAC result strings (`pac/proxy.go`) -/
@@ -141,13 +145,20 @@ structure HostPortPair where
 
 structure RouteCfg where
   base : Base := .none
-  directDomains : Option (List DomRule) := none     -- `--direct-domains` (none = not configured)
+  directDomains : Option (List C17.Rule) := none    -- `--direct-domains` (none = not configured): the rules as written
   localhostDirect : Bool := false                   -- `--proxy-localhost direct`
   localhostNames : List Bytes := []
   connectTo : List HostPortPair := []
   deriving Repr
 
 abbrev ProxyFn := Bytes → Except RouteError (Option ProxyURL)
+
+/-- `hp.config.DirectDomains.Match(host)`, the matcher being what `NewRegexpMatcherFromList` builds
+    from the `--direct-domains` values: C17's model of `ruleset.RegexpMatcher` (every rule compiled
+    and evaluated ON ITS OWN, exclusions first).  A list from which no matcher can be built (no
+    include rule) is refused when the flag is read, so no proxy instance carries one; it is given
+    the verdict of a matcher that matches nothing. -/
+def directMatch (rules : List C17.Rule) (host : Bytes) : Bool := (C17.matchesOf rules host).getD false
 
 /-- the recognised PAC proxy types nothing in the proxy can speak -/
 def Mode.unsupported : Mode → Bool
@@ -181,7 +192,7 @@ def wrapDirectDomains (rc : RouteCfg) : Option ProxyFn → Option ProxyFn
   | some f =>
     match rc.directDomains with
     | none => some f
-    | some rules => some fun host => if domMatch rules host then .ok none else f host
+    | some rules => some fun host => if directMatch rules host then .ok none else f host
 
 /-- `directLocalhost(fn)`: nil stays nil -/
 def wrapDirectLocalhost (rc : RouteCfg) : Option ProxyFn → Option ProxyFn
@@ -545,6 +556,28 @@ def dialOk (as : List Attempt) : Bool :=
 /-- the counter-model: the first attempt goes to the mapped address, retries to the one requested -/
 def dialAttemptsUnmappedRetry (cfg : DialCfg) (addr : Bytes) (outcomes : List Bool) : List Attempt :=
   attemptLoop (fun i => if i == 0 then redirect cfg.connectTo addr else addr) 0 cfg.tries outcomes
+
+/-! ### the counter-model: a direct-domains matcher that joins the rules of a list
+
+One automaton per list instead of one per rule: the source texts of the include rules joined with
+`|` and compiled as ONE expression, the same for the exclude rules (C17's `joinSrc`/`joinedSearch`,
+the construction `ruleset` had before F10/F26 were repaired).  `|` binds weakest, so anchors and
+repetitions stay inside their rule — but an unscoped flag group `(?i)` of one rule stays in force
+for every rule joined after it. -/
+
+def directMatchJoined (rules : List C17.Rule) (host : Bytes) : Bool :=
+  let incl := (C17.includes rules).map (·.src)
+  let excl := (C17.excludes rules).map (·.src)
+  !incl.isEmpty && !(!excl.isEmpty && C17.joinedSearch excl host) && C17.joinedSearch incl host
+
+/-- `selectProxy` with the joined matcher in place of `directMatch` -/
+def selectProxyJoined (rc : RouteCfg) (host : Bytes) : Except RouteError (Option ProxyURL) :=
+  match baseFn rc.base with
+  | none => .ok none
+  | some f =>
+    if (match rc.directDomains with | some rules => directMatchJoined rules host | none => false) then .ok none
+    else if rc.localhostDirect && Req.isLocalhostNames rc.localhostNames host then .ok none
+    else f host
 
 /-! ### the counter-model: an instance that remembers answers under a key -/
 
